@@ -281,11 +281,19 @@ def view(obj):
     return canon_candles(obj.candles, with_clean=True)
 
 
+FINE = {"tick": 0.123457, "offset": 0.000013, "base": A._BASES[0], "rot": 0, "volscale": 0.1}  # six-decimal prices, fractional volumes
+
+
+def enc_raw(word, fine):
+    return raw_stream(word, "+", A.regular_gaps("reg", len(word), 120), "T2", var=FINE if fine else None)
+
+
 def explore_enc(item):
-    tier, oi, word = item
+    tier, oi, word = item[:3]
+    fine = len(item) > 3 and item[3]
     rep = Report()
     objspec = OBJECTS[oi]
-    raw = raw_stream(word, "+", A.regular_gaps("reg", len(word), 120), "T2")
+    raw = enc_raw(word, fine)
     n = 4 if tier == "quick" else 5
     import itertools
     encs = [e[0] for e in encodings(raw[0])]
@@ -303,12 +311,12 @@ def explore_enc(item):
                     obj.append(arg)
                     if keep is not None and arg != keep:
                         rep.violation(f"C19|caller-container-mutated|{objspec[0]}|{name}",
-                                      {"obj": objspec, "word": word, "plan": [encs[j] for j in plan], "oracle": "container", "at": i})
+                                      {"obj": objspec, "word": word, "fine": fine, "plan": [encs[j] for j in plan], "oracle": "container", "at": i})
                 v = view(obj)
             except Exception as e:
                 rep.inc("executions")
                 rep.violation(f"C19|encoding-raised|{objspec[0]}|{type(e).__name__}",
-                              {"obj": objspec, "word": word, "plan": [encs[j] for j in plan], "oracle": "enc-raised", "error": repr(e)})
+                              {"obj": objspec, "word": word, "fine": fine, "plan": [encs[j] for j in plan], "oracle": "enc-raised", "error": repr(e)})
                 continue
             rep.inc("executions")
             rep.inc("transitions", n)
@@ -317,9 +325,9 @@ def explore_enc(item):
             if v != base:
                 bad = sorted({encs[j] for j in plan} - {"Candle"})
                 rep.violation(f"C19|encoding-differs|{objspec[0]}|{bad[0] if len(bad) == 1 else 'mixed'}",
-                              {"obj": objspec, "word": word, "plan": [encs[j] for j in plan], "oracle": "encoding"})
+                              {"obj": objspec, "word": word, "fine": fine, "plan": [encs[j] for j in plan], "oracle": "encoding"})
             else:
-                rep.add("nontrivial", (oi, tuple(plan)))
+                rep.add("nontrivial", (oi, fine, tuple(plan)))
             rep.add("states_enc", v)
     # batches: two candles in ONE append, every pair of row encodings (lists with leading / trailing timestamp, dicts, Candles)
     def row(r, kind):
@@ -340,21 +348,21 @@ def explore_enc(item):
                 obj.append(batch)
                 if keep is not None and batch != keep:
                     rep.violation(f"C19|caller-container-mutated|{objspec[0]}|batch-{homog[k1]}",
-                                  {"obj": objspec, "word": word, "plan": ["batch", k1, k2, n], "oracle": "container", "at": 0})
+                                  {"obj": objspec, "word": word, "fine": fine, "plan": ["batch", k1, k2, n], "oracle": "container", "at": 0})
                 for i in range(2, n):
                     obj.append(fresh([raw[i]])[0])
                 v = view(obj)
             except Exception as e:
                 rep.inc("executions")
                 rep.violation(f"C19|encoding-raised|{objspec[0]}|{type(e).__name__}",
-                              {"obj": objspec, "word": word, "plan": ["batch", k1, k2, n], "oracle": "enc-raised", "error": repr(e)})
+                              {"obj": objspec, "word": word, "fine": fine, "plan": ["batch", k1, k2, n], "oracle": "enc-raised", "error": repr(e)})
                 continue
             rep.inc("executions")
             rep.inc("transitions", n - 1)
             if v != base:
-                rep.violation(f"C19|encoding-differs|{objspec[0]}|batch-{k1}+{k2}", {"obj": objspec, "word": word, "plan": ["batch", k1, k2, n], "oracle": "encoding"})
+                rep.violation(f"C19|encoding-differs|{objspec[0]}|batch-{k1}+{k2}", {"obj": objspec, "word": word, "fine": fine, "plan": ["batch", k1, k2, n], "oracle": "encoding"})
             else:
-                rep.add("nontrivial", (oi, "batch", k1, k2))
+                rep.add("nontrivial", (oi, fine, "batch", k1, k2))
     rep.sample({"object": objspec, "encodings": encs, "stream": word})
     return rep
 
@@ -479,7 +487,7 @@ def replay(case):
     objspec = tuple(case["obj"])
     objspec = (objspec[0], objspec[1] if objspec[0] == "ind" else tuple(tuple(m) for m in objspec[1]),
                objspec[2] if objspec[0] == "ind" else tuple(tuple(x) for x in objspec[2])) + tuple(objspec[3:])
-    raw = raw_stream(case["word"], "+", A.regular_gaps("reg", len(case["word"]), 120), "T2")
+    raw = enc_raw(case["word"], case.get("fine", False))
     if case["oracle"] in ("accessor", "usable"):
         obj, pos = build(objspec, raw, case["state"])
         accs = indicator_accessors(obj) if objspec[0] == "ind" else hexital_accessors(obj, list(obj.indicators), [t for _, t in objspec[1] if t])
@@ -554,14 +562,14 @@ def main(prop, tier):
     word = WORDS[var["rot"] % len(WORDS)]
     items = [(tier, oi, st, word) for oi in range(len(OBJECTS)) for st in ("empty", "preloaded", "calculated")]
     reps = pmap(explore, items)
-    reps += pmap(explore_enc, [(tier, oi, word) for oi in range(len(OBJECTS))])
+    reps += pmap(explore_enc, [(tier, oi, word, fine) for oi in range(len(OBJECTS)) for fine in (False, True)])
     reps += pmap(explore_delivery, [(tier, di, word) for di in range(len(DELIVERY))])
     rep = merge_all(reps)
     rule = ("explicit-state search: from 3 initial states of every object of the pool (10 indicators, 6 Hexitals with 1-3 timeframes, fill, HA) "
             "every accessor of the read-only menu is applied in every reachable state (appends of 1|2 candles to the depth bound, states "
             "deduplicated on a deep snapshot of the whole object graph); the object with the accessor applied must be observationally equal "
             "(all candles of all timeframes + the results of all accessors) to the object without it, immediately and after 1 and 2 further appends; encoding matrix: every pair of encodings for the first two appends x encodings of the rest, all 9 encodings, result "
-            "equal to the all-Candle run and caller containers unchanged; delivery: breadth-first search over {append 1|2, remove_indicator, "
+            "equal to the all-Candle run and caller containers unchanged, on the integer grid and on a six-decimal / fractional-volume scale; delivery: breadth-first search over {append 1|2, remove_indicator, "
             "add it back} on Hexitals with several member timeframes over a stream with gaps - in every reachable state every timeframe the Hexital "
             "lists holds exactly the reference resampling of everything appended so far; non-trivial = distinct reachable deep states + distinct agreeing encoding plans")
     return finish(prop, tier, rep, t0, rule=rule, bounds={"depth": 5 if tier == "quick" else 7, "objects": OBJECTS, "stream": word, "delivery": DELIVERY, "delivery_gaps": DELIVERY_GAPS},
